@@ -196,3 +196,15 @@ Proof.
     replace (Nat.eqb p q) with false in H by (symmetry; apply Nat.eqb_neq; lia).
     apply (IH q a b Hq H).
 Qed.
+
+(* ======== the model's template against what CPython's parser makes of the pattern text the source builds, on a sample list ======== *)
+Require RxNorm G_rx.
+From Coq Require Import String.
+Local Open Scope string_scope.
+Definition AS_SAMPLE : list (list chr) := [lit "12"; lit "345"; lit "12345"].
+Theorem as_template_is_what_python_compiles_on_a_sample (s : list chr) i c :
+  ms s (as_rx AS_SAMPLE) i c = ms s G_rx.AS_SAMPLE_RX i c.
+Proof.
+  assert (E : RxNorm.norm (as_rx AS_SAMPLE) = RxNorm.norm G_rx.AS_SAMPLE_RX) by (vm_compute; reflexivity).
+  transitivity (ms s (RxNorm.norm (as_rx AS_SAMPLE)) i c); [symmetry; apply RxNorm.ms_norm|]. rewrite E. apply RxNorm.ms_norm.
+Qed.
